@@ -93,6 +93,23 @@ EXTRA = {
          "Retry race: quick max_retries=1, holder first, 2 preemptions 0..45; thorough max_retries 1-2, either actor first, 0..80."),
  "C20": ("The queue page leaves ids, multiplicities and order unchanged also when the same id is queued more than once.", ""),
 }
+# parts added during the third round of seeded changes
+EXTRA3 = {
+ "C01": "Two requests in flight on an owned invocation (owner's request vs another runner's, line / statement-level interleaving, harness shared with C02) end in one of the two serial outcomes of the specification table: a final status reached by one is never left by the other.",
+ "C02": "From PENDING owned by r1: recovery takes the invocation away and r2 claims it while r1's own start is in flight (ABA on status alone is refuted).",
+ "C03": "Without any crash: a recovery run racing with a live owner strands nothing (C04's scenario, stranding outcomes only).",
+ "C04": "A looping parent runner reports heartbeats for its live children at every iteration: recovery never selects a live child's RUNNING invocation and selects a dead child's once the timeout has passed (runner level, process stand-ins).",
+ "C06": "One runner whose single poll feeds several worker threads (same-key invocations awaited by a parent and plain queue entries): never two RUNNING.",
+ "C08": "On SQLite the op sequences are spread over two broker instances on one database and every instance reports the exact queue length after every op.",
+ "C10": "A parallelize batch registered while the history writers are late gives every invocation exactly its own REGISTERED entry.",
+ "C13": "Status, result and exception occurrences produced by the real reporting paths (single calls, a parallelize batch, executions that succeed or raise) each launch their dependent task exactly once with arguments from that occurrence.",
+ "C16": "A second state-backend alphabet covers the time-range iterators (shared instants, pages of 1 / 2), runner contexts and workflow bookkeeping.",
+ "C17": "The sibling application's app info (get_app_info / discovery) is among the observations that an operation on the other application must not change.",
+ "C18": "The deterministic values (random, uuid) that two interleaved workflows record are those of the sequential run of the same two workflows (closures of the executor are interleaved at line level).",
+ "C20": "Scenes with long inline / externalised argument values; handlers that take a call id are called with existing call ids.",
+}
+for _k, _t in EXTRA3.items():
+    CHECKS[_k]["text"] += " " + _t
 for _k, (_t, _n) in EXTRA.items():
     CHECKS[_k]["text"] += " " + _t
     if _n:
